@@ -18,12 +18,15 @@ import (
 	"encoding/json"
 	"errors"
 	"fmt"
+	"io"
 	"strconv"
 	"strings"
 	"testing"
 	"time"
 
 	"github.com/titpetric/vuego"
+	xhtml "golang.org/x/net/html"
+	"golang.org/x/net/html/atom"
 
 	"verif/internal/compose"
 	"verif/internal/ev"
@@ -39,8 +42,10 @@ const prop = "C04"
 
 // Case is one template (as a program description) plus its data.
 type Case struct {
-	// API selects the entry point: "string" = New().Fill(d).RenderString, "fragment" =
-	// NewVue(fs).RenderFragment(w, file, d), "load" = NewFS(fs).Load(file).Fill(d).Render.
+	// API selects the entry point (see doors): "string" / "byte" / "reader" = Fill(d).RenderString /
+	// RenderByte / RenderReader, "fragment" / "vrender" / "nodes" = Vue.RenderFragment / Render /
+	// RenderNodes, "load" = Load(file).Fill(d).Render, "file" = Fill(d).RenderFile, "view" =
+	// View(t, file, d).Render, "assign" = Load(file).Assign(k, v)….Render (map roots).
 	API string `json:"api"`
 	// Pretty puts a newline + indentation between sibling nodes (never between a loop and its
 	// v-else: that separator is Else.Sep).
@@ -88,8 +93,20 @@ type Node struct {
 	Pre *PreBlock `json:"pre,omitempty"`
 	// Piece is <TAG>{{ path }}</TAG> (or bare {{ path }}, or nothing) followed by literal white space.
 	Piece *Piece `json:"piece,omitempty"`
+	// Wrap puts Body into a parser-sensitive container: "noscript" (<noscript data-m=ID>: raw text
+	// for a parser with scripting enabled), "template" (a plain <template> wrapper, no element of
+	// its own), "table" (<table data-m=ID><tbody>: Body holds loops written as <tr v-for><td>…),
+	// "select" (<select data-m=ID>: Body holds <option v-for> loops with text bodies).
+	Wrap *Wrap `json:"wrap,omitempty"`
 	// Boom exists in the failing variant only: zz({{ PATH }},{{ boom(PATH) }}).
 	Boom *string `json:"boom,omitempty"`
+}
+
+// Wrap is a container around loops.
+type Wrap struct {
+	ID   string `json:"id"`
+	Kind string `json:"kind"`
+	Body []Node `json:"body"`
 }
 
 // PreBlock: Body holds loops (<template> or <span data-m>) whose bodies hold Pieces and loops.
@@ -326,6 +343,20 @@ func funcsFor(calls *int, failAt *int) vuego.FuncMap {
 			return "", nil
 		},
 		"boomlast": func() (string, error) { return "", errors.New("boom at the end") },
+		// context-aware functions: they read the variables of the place they are called from
+		// through ctx.Stack(), the documented purpose of VueContext.Stack()
+		"seen": func(ctx *vuego.VueContext, path string) string {
+			v, ok := ctx.Stack().Resolve(path)
+			if !ok || v == nil {
+				return "~"
+			}
+			return fmt.Sprint(v)
+		},
+		"cnt": func(ctx *vuego.VueContext, path string) int {
+			n := 0
+			_ = ctx.Stack().ForEach(path, func(int, any) error { n++; return nil })
+			return n
+		},
 	}
 }
 
@@ -363,6 +394,9 @@ func failing(c Case) Case {
 	var walk func(ns []Node) []Node
 	walk = func(ns []Node) []Node {
 		for i := range ns {
+			if w := ns[i].Wrap; w != nil && (w.Kind == "noscript" || w.Kind == "template") {
+				w.Body = walk(w.Body)
+			}
 			l := ns[i].Loop
 			if l == nil {
 				continue
@@ -649,66 +683,107 @@ func (d Data) build() any {
 
 // ---------------------------------------------------------------- check
 
+// door opens one public entry point: run renders the named page ("page" or "fail") over d.
+type door struct {
+	run   func(which, text string, d Data, w io.Writer) error
+	fresh func() // replace the engine / base template by a new one
+}
+
+func parseNodes(text string) []*xhtml.Node {
+	body := &xhtml.Node{Type: xhtml.ElementNode, Data: "body", DataAtom: atom.Body}
+	nodes, _ := xhtml.ParseFragmentWithOptions(strings.NewReader(text), body, xhtml.ParseOptionEnableScripting(false))
+	return nodes
+}
+
+func openDoor(api string, files map[string]string, fm vuego.FuncMap) (*door, error) {
+	ctx := context.Background()
+	var v *vuego.Vue
+	var t vuego.Template
+	d := &door{}
+	d.fresh = func() {
+		v = vuego.NewVue(memfs.FromMap(files)).Funcs(fm)
+		t = vuego.NewFS(memfs.FromMap(files), vuego.WithFuncs(fm))
+	}
+	d.fresh()
+	switch api {
+	case "", "string":
+		d.run = func(_, text string, dd Data, w io.Writer) error { return t.Fill(dd.build()).RenderString(ctx, w, text) }
+	case "byte":
+		d.run = func(_, text string, dd Data, w io.Writer) error { return t.Fill(dd.build()).RenderByte(ctx, w, []byte(text)) }
+	case "reader":
+		d.run = func(_, text string, dd Data, w io.Writer) error {
+			return t.Fill(dd.build()).RenderReader(ctx, w, strings.NewReader(text))
+		}
+	case "fragment":
+		d.run = func(which, _ string, dd Data, w io.Writer) error { return v.RenderFragment(w, which+".vuego", dd.build()) }
+	case "vrender":
+		d.run = func(which, _ string, dd Data, w io.Writer) error { return v.Render(w, which+".vuego", dd.build()) }
+	case "nodes":
+		d.run = func(_, text string, dd Data, w io.Writer) error { return v.RenderNodes(w, parseNodes(text), dd.build()) }
+	case "load":
+		d.run = func(which, _ string, dd Data, w io.Writer) error {
+			return t.Load(which + ".vuego").Fill(dd.build()).Render(ctx, w)
+		}
+	case "file":
+		d.run = func(which, _ string, dd Data, w io.Writer) error {
+			return t.Fill(dd.build()).RenderFile(ctx, w, which+".vuego")
+		}
+	case "view":
+		d.run = func(which, _ string, dd Data, w io.Writer) error {
+			return vuego.View(t, which+".vuego", dd.build()).Render(ctx, w)
+		}
+	case "assign":
+		d.run = func(which, _ string, dd Data, w io.Writer) error {
+			if dd.Root != "map" && dd.Root != "hmap" {
+				return t.Load(which + ".vuego").Fill(dd.build()).Render(ctx, w)
+			}
+			x := t.Load(which + ".vuego")
+			for _, sl := range dd.Slots {
+				if sl.V.K != "missing" {
+					x = x.Assign(sl.N, goVal(sl.V))
+				}
+			}
+			return x.Render(ctx, w)
+		}
+	default:
+		return nil, fmt.Errorf("unknown api %q", api)
+	}
+	return d, nil
+}
+
 func render(c Case, tpl string) (string, error) {
-	var buf bytes.Buffer
-	data := c.Data.build()
+	var buf, sink bytes.Buffer
 	files := map[string]string{"page.vuego": tpl, "comp.vuego": compFile, "list.vuego": listFile}
 	calls, failAt := 0, 0
 	fm := funcsFor(&calls, &failAt)
 	// the failing variant first (see Case.After); its outcome is not asserted
+	var f Case
 	var failTpl string
-	var failData any
 	if c.After != "" {
-		f := failing(c)
-		failTpl, failData = buildTemplate(f), f.Data.build()
+		f = failing(c)
+		failTpl = buildTemplate(f)
 		files["fail.vuego"] = failTpl
 		failAt = c.FailAt
 		if failAt < 1 {
 			failAt = 2
 		}
 	}
-	var sink bytes.Buffer
-	var err error
-	switch c.API {
-	case "", "string":
-		mk := func() vuego.Template {
-			return vuego.New(vuego.WithFS(memfs.FromMap(map[string]string{"comp.vuego": compFile, "list.vuego": listFile})), vuego.WithFuncs(fm))
-		}
-		t := mk()
-		if c.After != "" {
-			_ = t.Fill(failData).RenderString(context.Background(), &sink, failTpl)
-			if c.After == "fresh" {
-				t = mk()
-			}
-		}
-		failAt = 0
-		err = t.Fill(data).RenderString(context.Background(), &buf, tpl)
-	case "fragment":
-		mk := func() *vuego.Vue { return vuego.NewVue(memfs.FromMap(files)).Funcs(fm) }
-		v := mk()
-		if c.After != "" {
-			_ = v.RenderFragment(&sink, "fail.vuego", failData)
-			if c.After == "fresh" {
-				v = mk()
-			}
-		}
-		failAt = 0
-		err = v.RenderFragment(&buf, "page.vuego", data)
-	case "load":
-		mk := func() vuego.Template { return vuego.NewFS(memfs.FromMap(files), vuego.WithFuncs(fm)) }
-		t := mk()
-		if c.After != "" {
-			_ = t.Load("fail.vuego").Fill(failData).Render(context.Background(), &sink)
-			if c.After == "fresh" {
-				t = mk()
-			}
-		}
-		failAt = 0
-		err = t.Load("page.vuego").Fill(data).Render(context.Background(), &buf)
-	default:
-		return "", fmt.Errorf("unknown api %q", c.API)
+	d, err := openDoor(c.API, files, fm)
+	if err != nil {
+		return "", err
 	}
-	return buf.String(), err
+	if c.After != "" {
+		_ = d.run("fail", failTpl, f.Data, &sink)
+		if c.After == "fresh" {
+			d.fresh()
+		}
+	}
+	failAt = 0
+	err = d.run("page", tpl, c.Data, &buf)
+	// hx parses with scripting enabled, where the content of <noscript> is text: rename the
+	// element so that the instances rendered inside it are seen as the elements they are
+	out := strings.NewReplacer("<noscript", "<x-noscript", "</noscript>", "</x-noscript>").Replace(buf.String())
+	return out, err
 }
 
 // flat lists the expected markers in document order.
@@ -952,6 +1027,14 @@ func TestProp(t *testing.T) {
 	}
 	if ok {
 		rec.Exhaustive(fmt.Sprintf("core4: <template> / <span> loops inside <pre> x white-space separator (newline, blank, tab, two blanks) x 0..3 items x form x nested loop, content of the <pre> compared exactly (%d cases)", n-n2))
+	}
+	// exhaustive core 5: parser-sensitive containers x entry points
+	n3 := n
+	if ok {
+		core5(each("core5"))
+	}
+	if ok {
+		rec.Exhaustive(fmt.Sprintf("core5: a loop inside <noscript> / a plain <template> / <table><tbody><tr> / <select><option> x every entry point (RenderString / Byte / Reader, Vue.RenderFragment / Render / RenderNodes, Load.Fill.Render, RenderFile, View, Load.Assign.Render) x 0 / 2 items x form x v-else (%d cases)", n-n3))
 	}
 	run.Rapid(t, rec, "nest", genCase, classify, check)
 }
